@@ -39,6 +39,36 @@ def gen(rng, tier):
             yield Case(sx.dump(['imap', ['recs'] + [[R.h(c), s, e, v] for (c, s, e), v in zip(regs, vals)], ['ops'] + ops]), dup and unsorted_, mode)
 
 
+    # several hundred regions on one chromosome (257..700: past any per-block summary of 64 / 128 / 256 entries), supplied
+    # in an order with LOCALITY that is not coordinate order (descending, blocks reversed, interleaved halves), a second
+    # small chromosome in between; queries spanning every multiple of 64 in sorted position
+    for k in range(16 if tier == 'quick' else 160):
+        m = rng.choice([257, 300, 513, 520, 700])
+        c0, c1 = rng.sample([b'chr1', b'chr2', b'chrX'], 2)
+        step = rng.choice([7, 10, 13])
+        base = [(c0, i * step, i * step + rng.randint(1, 3 * step)) for i in range(m)]
+        order = rng.choice([0, 0, 1, 1, 2, 3])
+        if order == 0:
+            regs = base[::-1]
+        elif order == 1:
+            B = rng.choice([64, 100, 256]); regs = [r for j in range((m + B - 1) // B - 1, -1, -1) for r in base[j * B:(j + 1) * B]]
+        elif order == 2:
+            regs = base[m // 2:] + base[:m // 2]
+        else:
+            regs = base[1::2] + base[0::2]
+        regs.insert(rng.randint(0, len(regs)), (c1, 5, 50)); regs.insert(rng.randint(0, len(regs)), (c1, 0, 7))
+        ops = [['len']]
+        for j in list(range(60, m, 64))[:12] + [rng.randrange(m) for _ in range(6)]:
+            a0 = base[j][1] - rng.randint(0, 2 * step); qa = [R.h(c0), max(0, a0), base[min(m - 1, j + 3)][1] + 1]
+            ops += [['findidx'] + qa, ['find'] + qa] + ([['findfull'] + qa, ['isov'] + qa] if k % 2 == 0 else [])
+        ops += [['get', i] for i in (0, 1, 255, 256, 257, m - 1, m, m + 1, m + 2)]
+        if k % 2 == 0:
+            yield Case(sx.dump(['iset', ['regs'] + [[R.h(c), s_, e_] for c, s_, e_ in regs], ['ops'] + ops]), True, 'many-regions')
+        else:
+            vals = list(range(5000, 5000 + len(regs)))
+            yield Case(sx.dump(['imap', ['recs'] + [[R.h(c), s_, e_, v] for (c, s_, e_), v in zip(regs, vals)], ['ops'] + ops]), True, 'many-regions')
+
+
 def classify(case, impl, model):
     return 'mismatch'
 
